@@ -379,3 +379,21 @@ func concPart(label string, callsTarget int, mk func(d *drbg, w int) []concJob) 
 	}
 	return "", calls, ks
 }
+
+// clobber overwrites a slice that was handed to a constructor (the caller reusing its
+// buffer): mode 0 leaves it alone, 1 zeroes it, 2 fills it with 0xff, 3 turns it into
+// another valid value of the same length.
+func clobber(b []byte, mode int) {
+	for i := range b {
+		switch mode {
+		case 1:
+			b[i] = 0
+		case 2:
+			b[i] = 0xff
+		case 3:
+			b[i] = b[i]*5 + byte(i) + 1
+		}
+	}
+}
+
+var clobberNames = []string{"inputs-kept", "inputs-zeroed", "inputs-0xff", "inputs-overwritten"}
